@@ -219,6 +219,17 @@ FIXED = [
     'def e { splitters: a splitters: b return "x" weighted 1 }',
     'def e { return "x" weighted 1 /* open }',
     'def e { return "x" /* open weighted 1 }',
+    # the two-word tokens `else if` / `not in` are ONE token each (else\s*if, not\s+in): a comment between the words makes two
+    # tokens of them, which no rule derives
+    'def e { if a == 1 { return "x" weighted 1 } else /* c */ if a == 2 { return "y" weighted 1 } }',
+    'def e { if a == 1 { return "x" weighted 1 } else // c\n if a == 2 { return "y" weighted 1 } }',
+    'def e { if a == 1 { return "x" weighted 1 } else /**/if a == 2 { return "y" weighted 1 } }',
+    'def e { if a not /* c */ in ( 1 , 2 ) { return "x" weighted 1 } }',
+    'def e { if a not // c\n in ( 1 , 2 ) { return "x" weighted 1 } }',
+    'def e { if a not/**/in ( 1 , 2 ) { return "x" weighted 1 } }',
+    'def e { if a == 1 { return "x" weighted 1 } else else if a == 2 { return "y" weighted 1 } }',
+    'def e { if a not not in ( 1 , 2 ) { return "x" weighted 1 } }',
+    'def e { if a in not ( 1 , 2 ) { return "x" weighted 1 } }',
 ]
 
 
